@@ -32,15 +32,15 @@ REG.klass("AccountBalances", B + "backtesting.account_balances.AccountBalances",
 REG.klass("Fill", B + "backtesting.orders.Fill",
           fields={"when": "DT", "balance_updates": "Dict[Str,Real]", "fees": "Dict[Str,Real]"})
 REG.klass("OrderInfo", B + "backtesting.orders.OrderInfo",
-          fields={"id": "Str", "is_open": "Bool", "operation": "OrderOperation", "amount": "Real",
+          fields={"id": "Id", "is_open": "Bool", "operation": "OrderOperation", "amount": "Real",
                   "amount_filled": "Real", "amount_remaining": "Real", "quote_amount_filled": "Real",
                   "fees": "Dict[Str,Real]", "limit_price": "Opt[Real]", "stop_price": "Opt[Real]",
-                  "loan_ids": "List[Str]"})
+                  "loan_ids": "List[Id]"})
 REG.klass("ExchObj", B + "backtesting.helpers.ExchangeObjectProto", abstract=True)
 REG.klass("Order", B + "backtesting.orders.Order", abstract=True, bases=["ExchObj"],
-          fields={"_id": "Str", "_operation": "OrderOperation", "_pair": "Val:Pair", "_amount": "Real",
+          fields={"_id": "Id", "_operation": "OrderOperation", "_pair": "Val:Pair", "_amount": "Real",
                   "_state": "OrderState", "_balance_updates": "ValueMap", "_fees": "ValueMap",
-                  "_fills": "List[Fill]", "_auto_borrow": "Bool", "_auto_repay": "Bool", "_loan_ids": "Set[Str]",
+                  "_fills": "List[Fill]", "_auto_borrow": "Bool", "_auto_repay": "Bool", "_loan_ids": "Set[Id]",
                   # declared at the base so that the base contract of get_balance_updates can name it in `modifies`
                   "_stop_price_hit": "Bool"})
 REG.klass("MarketOrder", B + "backtesting.orders.MarketOrder", bases=["Order"])
@@ -78,7 +78,7 @@ REG.klass("VolumeShareImpact", B + "backtesting.liquidity.VolumeShareImpact", ba
 
 # --- backtesting: containers (generic over the element class) -------------------------------------------------------
 REG.klass("ExchangeObjectContainer", B + "backtesting.helpers.ExchangeObjectContainer", params={"T": "ExchObj"},
-          fields={"_items": "Dict[Str,$T]", "_open_items": "List[$T]", "_reindex_every": "Int", "_reindex_counter": "Int"},
+          fields={"_items": "Dict[Id,$T]", "_open_items": "List[$T]", "_reindex_every": "Int", "_reindex_counter": "Int"},
           # ghost: position of every open registered item in _open_items (replaces an existential in the invariant)
           ghost={"pos": "MMap[$T,Int]"})
 REG.klass("OrderContainer", B + "backtesting.helpers.ExchangeObjectContainer", bases=["ExchangeObjectContainer"],
@@ -104,12 +104,12 @@ REG.klass("Loan", B + "backtesting.lending.base.Loan", abstract=True, bases=["Ex
           # ghost: the loan asks for no separate collateral (true of MarginLoan, the only Loan in the repo); exactness of
           # hold bookkeeping across several loans is proved for such loans only (no finite sums needed)
           ghost={"no_collateral": "Bool"},
-          fields={"_id": "Str", "_borrowed_symbol": "Str", "_borrowed_amount": "Real", "_is_open": "Bool",
+          fields={"_id": "Id", "_borrowed_symbol": "Str", "_borrowed_amount": "Real", "_is_open": "Bool",
                   "_created_at": "DT", "_paid_interest": "ValueMap"})
 REG.klass("MarginLoan", B + "backtesting.lending.margin.MarginLoan", bases=["Loan"],
           fields={"_conditions": "MarginLoanConditions"})
 REG.klass("LoanInfo", B + "backtesting.lending.base.LoanInfo",
-          fields={"id": "Str", "is_open": "Bool", "borrowed_symbol": "Str", "borrowed_amount": "Real",
+          fields={"id": "Id", "is_open": "Bool", "borrowed_symbol": "Str", "borrowed_amount": "Real",
                   "outstanding_interest": "Dict[Str,Real]", "paid_interest": "Dict[Str,Real]"})
 REG.klass("LoanContainer", B + "backtesting.helpers.ExchangeObjectContainer", bases=["ExchangeObjectContainer"],
           params={"T": "Loan"})
@@ -120,7 +120,7 @@ REG.klass("LendingStrategy", B + "backtesting.lending.base.LendingStrategy", abs
 REG.klass("NoLoans", B + "backtesting.lending.base.NoLoans", bases=["LendingStrategy"])
 REG.klass("LoanManager", B + "backtesting.loan_mgr.LoanManager",
           fields={"_loans": "LoanContainer", "_ctx": "LendingCtx", "_lending_strategy": "LendingStrategy",
-                  "_collateral_by_loan": "Dict[Str,ValueMap]"})
+                  "_collateral_by_loan": "Dict[Id,ValueMap]"})
 REG.klass("MarginLoans", B + "backtesting.lending.margin.MarginLoans", bases=["LendingStrategy"],
           fields={"_quote_symbol": "Str", "_conditions": "Dict[Str,MarginLoanConditions]",
                   "_default_conditions": "Opt[MarginLoanConditions]", "_loan_mgr": "Opt[LoanManager]",
@@ -135,7 +135,7 @@ REG.klass("OrderMgrCtx", B + "backtesting.order_mgr.ExchangeContext",
                   "config": "Config"})
 REG.klass("OrderManager", B + "backtesting.order_mgr.OrderManager",
           fields={"_ctx": "OrderMgrCtx", "_liquidity_strategies": "Dict[Val:Pair,LiquidityStrategy]",
-                  "_orders": "OrderContainer", "_holds_by_order": "Dict[Str,ValueMap]", "_order_updates": "LazyProxy"})
+                  "_orders": "OrderContainer", "_holds_by_order": "Dict[Id,ValueMap]", "_order_updates": "LazyProxy"})
 
 # --- global ghost state (exists only in contracts) --------------------------------------------------------------------
 # ledger[s] = sum over orders of (balance_updates[s] + fees[s])  -  sum over loans of paid_interest[s]
